@@ -62,7 +62,7 @@ def main(argv):
         # debugging aid: run a single index and print the trace
         from . import runner, engine
         prop = runner.load_prop(argv[1])
-        r = engine.run_one(prop, runner.world(), seed, int(argv[2]), "quick")
+        r = engine.run_one(prop, runner.world(), seed, int(argv[2]), os.environ.get("VERIF_TIER") or "quick")
         for e in r.trace:
             print(json.dumps(e))
         print("violation:", r.violation, "digest:", r.digest)
